@@ -5,6 +5,7 @@ import os, sys, re, hashlib, subprocess, shutil, tempfile, time, fcntl, glob, js
 VERIF = os.path.dirname(os.path.dirname(os.path.abspath(__file__)))
 CACHE = os.path.join(VERIF, '.cache')
 REPO = os.environ.get('VERIF_REPO', '/repo')
+HDIR = os.environ.get('VERIF_HARNESS_DIR') or os.path.join(VERIF, 'harness')   # development: a scratch harness dir
 
 
 def _hash_tree(paths):
@@ -160,7 +161,7 @@ def _run(cmd, cwd, env, log):
 
 def prepare(hdir=None, want_release=False, verbose=True, extra_mir_pkgs=()):
     """returns dict(mir, replay_dev, replay_release?, hash, base_src, times) or raises RuntimeError"""
-    hdir = hdir or os.path.join(VERIF, 'harness')
+    hdir = hdir or HDIR
     os.makedirs(CACHE, exist_ok=True)
     key = _hash_tree([os.path.join(REPO, 'base', 'src'), os.path.join(REPO, 'base', 'Cargo.toml'),
                       os.path.join(REPO, 'Cargo.lock'), hdir, os.path.abspath(__file__)])
